@@ -147,23 +147,35 @@ def run(run, tier, seed):
         events.append(big_sample(tmp, rng, 120000 if tier == "quick" else 400000))
         run.evaluations += 1
         run.nontriv(["big-sample", events[-1]["ctx"]["distinct"]])
+        if tier != "quick" or os.environ.get("VERIF_C20_CAP"):
+            # (thorough) more than a million distinct k-mers, every one of them seen exactly three times (twice in the first
+            # file, once reverse-complemented in the second), --min-count 3: the count table holds them all at once
+            events.append(big_sample(tmp, rng, 1100000, minc=3, whole=3))
+            run.evaluations += 1
+            run.nontriv(["million-sample", events[-1]["ctx"]["distinct"]])
     finally:
         shutil.rmtree(tmp, ignore_errors=True)
     validate(run, events, "c12", tier)
 
 
-def big_sample(tmp, rng, glen, k=31, minc=2):
+def big_sample(tmp, rng, glen, k=31, minc=2, whole=0):
     """One sample with more than 10^5 distinct k-mers, almost all of them seen once (every window of a random sequence,
     tiled by 150-base reads that overlap by k-1), a 3 kb stretch read twice: with --min-count 2 exactly the k-mers of that
     stretch belong in the file; whatever else is there came in through the counting filter and must stay below 0.1 % of
     the distinct k-mers of the sample."""
     g = gen.rand_seq(rng, glen)
     reads = [g[a:a + 150] for a in range(0, glen - k + 1, 150 - (k - 1))]
-    reads += [g[a:a + 150] for a in range(0, 3000, 150 - (k - 1))]
     reads = [r for r in reads if len(r) >= k]
-    rng.shuffle(reads)
-    reads = [revcomp(r) if rng.random() < 0.5 else r for r in reads]
-    half = len(reads) // 2
+    if whole:
+        # every window `whole` times: the tiling twice in the first file, once more (reverse-complemented) in the second
+        one = list(reads)
+        reads = one * (whole - 1) + [revcomp(r) for r in one]
+        half = len(one) * (whole - 1)
+    else:
+        reads += [g[a:a + 150] for a in range(0, 3000, 150 - (k - 1))]
+        rng.shuffle(reads)
+        reads = [revcomp(r) if rng.random() < 0.5 else r for r in reads]
+        half = len(reads) // 2
     f1, f2 = os.path.join(tmp, "big_1.fastq"), os.path.join(tmp, "big_2.fastq")
     write_fastq(f1, reads[:half], ["I" * len(r) for r in reads[:half]])
     write_fastq(f2, reads[half:], ["I" * len(r) for r in reads[half:]])
